@@ -262,6 +262,24 @@ func (f *FieldCopyToGenerator) genPrimitive() *j.Statement {
 	})
 }
 
+// genOptionalEmbedStub shadows obj with a copy that holds an empty embedded message when the embedded
+// pointer is nil, so that the fields of a nullable embedded message read as zero values instead of
+// dereferencing nil
+func (f *FieldCopyToGenerator) genOptionalEmbedStub(g *j.Group) {
+	if !f.ParentIsOptionalEmbed {
+		return
+	}
+
+	// obj := obj
+	// if obj.Embedded == nil { c := *obj; c.Embedded = &Embedded{}; obj = &c }
+	g.Id("obj").Op(":=").Id("obj")
+	g.If(j.Id("obj." + f.ParentIsOptionalEmbedFieldName).Op("==").Nil()).Block(
+		j.Id("c").Op(":=").Op("*").Id("obj"),
+		j.Id("c."+f.ParentIsOptionalEmbedFieldName).Op("=").Id("&"+f.i.WithType(f.ParentIsOptionalEmbedFullType)).Values(),
+		j.Id("obj").Op("=").Id("&c"),
+	)
+}
+
 // genObject generates CopyTo statement for a nested message
 func (f *FieldCopyToGenerator) genObject() *j.Statement {
 	m := NewMessageCopyToGenerator(f.Message, f.i)
@@ -271,6 +289,7 @@ func (f *FieldCopyToGenerator) genObject() *j.Statement {
 		if f.OneOfName != "" {
 			f.genOneOfStub(g)
 		}
+		f.genOptionalEmbedStub(g)
 
 		f.assertTo(f.Field.ElemType, g, func(g *j.Group) {
 			f.genObjectBody(m, fieldName, f.Field.ValueType, g)
@@ -305,6 +324,7 @@ func (f *FieldCopyToGenerator) genListOrMap() *j.Statement {
 	}
 
 	return f.nextField("a", func(g *j.Group) {
+		f.genOptionalEmbedStub(g)
 		f.assertTo(f.Field.Type, g, func(g *j.Group) {
 			f.getAttr("c", f.Field.ValueType, g)
 
